@@ -60,6 +60,7 @@ class Spec:
     needs: str = 'none'                         # 'none' | 'hex' (hex.init) | specific inits
     falls_through: bool = True                  # a run without a taken branch continues after the macro
     widths: Sequence[int] = (16, 32, 64)
+    requires: str = ''                          # the tables its documentation names ('add', 'sub,add', ...; '' = table-free)
 
     def var_operands(self) -> List[Operand]:
         return [o for o in self.operands if o.kind in VAR_KINDS]
